@@ -985,12 +985,21 @@ class Exec(Executor):
             for cl in self.reg.constructor_hooks.get(c.name, []):
                 ctx = Ctx(self, {"self": ref}, "prove", st, st)
                 self.oblige(st, f"construct {ci.name}/{cl.label}", smt.lift(cl.fn(ctx)).z, node, kind="construct")
+        pending_inv: list[z3.BoolRef] = []
         for c in ci.mro:
             for cl in self.reg.object_invariants.get(c.name, []):
                 if getattr(cl, "assumed_only", False):
                     continue
                 ctx = Ctx(self, {"self": ref}, "prove", st, st)
-                self.oblige(st, f"construct {ci.name}/inv/{cl.label}", smt.lift(cl.fn(ctx, ref)).z, node, kind="construct")
+                invz = smt.lift(cl.fn(ctx, ref)).z
+                self.oblige(st, f"construct {ci.name}/inv/{cl.label}", invz, node, kind="construct")
+                pending_inv.append(invz)
+        # each invariant has just been emitted as a proof obligation of this construction site; from here on it
+        # may be used (sequential reasoning)
+        st.assume(*pending_inv)
+        for _ in ():
+            for __ in ():
+                pass
         h = self.hooks.get("constructed")
         if h is not None:
             h(self, ref, ci, st, node)
